@@ -385,8 +385,9 @@ static int skip_to (char *token, char *atoken)
 
 static int inc_open (char *buf, const char *name) {
 
-  int i, fd;
+  int i, j, fd;
   char *p;
+  char first[INC_BUF_SIZE];
 
   /* directory of the including file + '/' + name must fit */
   if (strlen (current_file) + strlen (name) + 2 > INC_BUF_SIZE)
@@ -399,6 +400,10 @@ static int inc_open (char *buf, const char *name) {
       opt_trace (TT_COMPILE|3, "opened (fd %d): \"%s\"", fd, buf);
       return fd;
     }
+  /* what was looked for next to the including file (nothing if that path is not allowed at all) */
+  first[0] = '\0';
+  if (legal_path (buf))
+    strcpy (first, buf);
   /*
    * Search all include dirs specified.
    */
@@ -419,6 +424,17 @@ static int inc_open (char *buf, const char *name) {
       if ((fd = FILE_OPEN (buf, O_RDONLY)) != -1)
         {
           opt_trace (TT_COMPILE|3, "opened (fd %d): \"%s\"", fd, buf);
+          /* everything that was tried before this one did not exist */
+          add_program_missing_file (first);
+          for (j = 0; j < i; j++)
+            {
+              char missed[INC_BUF_SIZE];
+
+              if (inc_list[j] == 0 || strlen (inc_list[j]) + strlen (name) + 2 > INC_BUF_SIZE)
+                continue;
+              sprintf (missed, "%s/%s", inc_list[j], name);
+              add_program_missing_file (missed);
+            }
           return fd;
         }
     }
